@@ -129,17 +129,17 @@ one built with `from_listener`) hands the kernel a datagram from `j` for the soc
 that socket takes datagrams from `j`, exactly this datagram is appended to its queue. -/
 theorem reply_reaches_address (w : World) (hkm : maxLen ≤ w.kmax) (j a : Nat) (s t : Sock) (data : Bytes)
     (hj : w.socks[j]? = some s) (hk : s.kind = .listener) (ha : w.socks[a]? = some t)
-    (hacc : kAccepts t.kind j = true) (hlen : data.length ≤ maxLen) :
+    (hal : t.alive = true) (hacc : kAccepts t.kind j = true) (hlen : data.length ≤ maxLen) :
     (send w ⟨j, a⟩ data).2 = .sent ∧
     ∃ t', (send w ⟨j, a⟩ data).1.socks[a]? = some t' ∧ t'.kind = t.kind ∧
       t'.queue = t.queue ++ [⟨j, data⟩] ∧ t'.events = t.events := by
   have hk' : ¬ data.length > w.kmax := by omega
   have hl : ¬ data.length > maxLen := by omega
   unfold send
-  simp only [hj, hk, record, sendPacket, hl, if_false, kSend, hk']
+  simp only [hj, hk, record, sendPacket, hl, if_false, Bool.false_eq_true, kSend, hk']
   refine ⟨by trivial, ?_⟩
   rw [getElem?_enqueue]
-  simp only [if_true, ha, Option.map_some, hacc]
+  simp only [if_true, ha, Option.map_some, hacc, hal, Bool.and_self]
   exact ⟨_, rfl, rfl, rfl, rfl⟩
 
 /-- the endpoint of an event is a valid reply address: the sender's socket exists -/
@@ -161,13 +161,16 @@ theorem from_listener_spec (w : World) (id addr : Nat) (ep : Endpoint) :
     · simp [hk]
 
 /-- **Sizes.**  A send on a library socket is refused with `MaxPacketSizeExceeded` exactly above the
-declared maximum, and then nothing is transmitted; at or below it (zero included) it is `Sent`. -/
+declared maximum, and then nothing is transmitted; at or below it (zero included) it is `Sent` — except
+that a connected socket with a pending ICMP error (an earlier datagram bounced off an absent peer)
+answers `ResourceNotFound` once, for a datagram the kernel did not take. -/
 theorem size_status (w : World) (hkm : maxLen ≤ w.kmax) (ep : Endpoint) (s : Sock) (data : Bytes)
     (hs : w.socks[ep.rid]? = some s) (hk : s.kind ≠ .raw) :
     ((send w ep data).2 = .maxPacketSizeExceeded ↔ data.length > maxLen) ∧
-    ((send w ep data).2 = .sent ↔ data.length ≤ maxLen) ∧
+    ((send w ep data).2 = .sent ↔ data.length ≤ maxLen ∧ ¬ ((∃ p, s.kind = .connected p) ∧ s.err = true)) ∧
     (data.length > maxLen → (send w ep data).1.socks = w.socks) := by
   have hm := hkm
+  have herr : hasErr w.socks ep.rid = s.err := by simp [hasErr, hs]
   unfold send
   simp only [hs]
   cases hkind : s.kind with
@@ -181,9 +184,54 @@ theorem size_status (w : World) (hkm : maxLen ≤ w.kmax) (ep : Endpoint) (s : S
   | connected p =>
     by_cases hl : data.length > maxLen
     · simp [record, sendPacket, hl]
+      intro hle; omega
     · have hk' : ¬ data.length > w.kmax := by omega
-      simp [record, sendPacket, hl, kSend, hk']
-      omega
+      have hle : data.length ≤ maxLen := by omega
+      cases he : s.err with
+      | true => simp [record, sendPacket, hl, kSendConn, hk', herr, he]
+      | false =>
+        by_cases hd : deliverable w.socks p = true
+        · simp [record, sendPacket, hl, kSendConn, hk', herr, he, hd, hle]
+        · simp [record, sendPacket, hl, kSendConn, hk', herr, he, hd, hle]
+
+/-- **`Sent` is truthful.**  A send that answers `ResourceNotFound` because of a pending ICMP error hands
+nothing to anybody: every queue is as before (only the error flag of the sender is cleared). -/
+theorem refused_send_transmits_nothing (w : World) (ep : Endpoint) (s : Sock) (p : Nat) (data : Bytes)
+    (hs : w.socks[ep.rid]? = some s) (hk : s.kind = .connected p) (he : s.err = true)
+    (hl : data.length ≤ w.kmax) (hl' : data.length ≤ maxLen) :
+    (send w ep data).2 = .resourceNotFound ∧
+    ∀ j : Nat, ((send w ep data).1.socks[j]?).map Sock.queue = (w.socks[j]?).map Sock.queue := by
+  have herr : hasErr w.socks ep.rid = true := by simp [hasErr, hs, he]
+  have h1 : ¬ data.length > maxLen := by omega
+  have h2 : ¬ data.length > w.kmax := by omega
+  unfold send
+  simp only [hs, hk, record, sendPacket, h1, if_false, if_true, kSendConn, h2, herr]
+  refine ⟨trivial, ?_⟩
+  intro j
+  simp only [setErr]
+  rw [List.getElem?_modify]
+  cases w.socks[j]? with
+  | none => rfl
+  | some t => by_cases hj : ep.rid = j <;> simp [hj]
+
+/-- … and a datagram sent (status `Sent`) from a connected socket to its peer, when a socket is bound
+there and takes datagrams from it, is in that socket's queue -/
+theorem sent_from_connected_is_queued (w : World) (ep : Endpoint) (s t : Sock) (p : Nat) (data : Bytes)
+    (hs : w.socks[ep.rid]? = some s) (hk : s.kind = .connected p) (he : s.err = false)
+    (ht : w.socks[p]? = some t) (hal : t.alive = true) (hacc : kAccepts t.kind ep.rid = true)
+    (hl : data.length ≤ w.kmax) (hl' : data.length ≤ maxLen) :
+    (send w ep data).2 = .sent ∧
+    ∃ t', (send w ep data).1.socks[p]? = some t' ∧ t'.queue = t.queue ++ [⟨ep.rid, data⟩] := by
+  have herr : hasErr w.socks ep.rid = false := by simp [hasErr, hs, he]
+  have hd : deliverable w.socks p = true := by simp [deliverable, ht, hal]
+  have h1 : ¬ data.length > maxLen := by omega
+  have h2 : ¬ data.length > w.kmax := by omega
+  unfold send
+  simp only [hs, hk, record, sendPacket, h1, if_false, if_true, kSendConn, h2, herr, Bool.false_eq_true, hd]
+  refine ⟨trivial, ?_⟩
+  rw [getElem?_enqueue]
+  simp only [if_true, ht, Option.map_some, hal, hacc, Bool.and_self]
+  exact ⟨_, rfl, rfl⟩
 
 /-- the declared maximum is what `Transport::Udp.max_message_size()` answers (regenerated table) -/
 theorem declared_maximum :
